@@ -1,7 +1,7 @@
-(** The graph side of Model/Smooth.v (C15): what the schedule of a grid contains, neighbour and
+(** The graph side of Model/C15_Smooth.v (C15): what the schedule of a grid contains, neighbour and
     boundary characterisations, the 3-D frame theorem, decidable side conditions, structured maps. *)
 From Coq Require Import List Bool Arith ZArith QArith Qabs Lia Lqa.
-From CB Require Import Model.Smooth Proofs.Smooth.
+From CB Require Import Model.C15_Smooth Proofs.C15_Smooth.
 Import ListNotations.
 Close Scope Q_scope.
 Open Scope nat_scope.
@@ -265,16 +265,18 @@ Definition border (nx ny k : nat) : bool :=
 Definition harmonic_fnb (f : nat -> Q) (jn : nat * list nat) : bool :=
   Qeq_bool (qlen (snd jn) * f (fst jn)) (qsum (map f (snd jn))).
 
-(** everything the lattice theorem needs of one size, decidable *)
-Definition lattice_ok (ct : celltype) (nx ny : nat) : bool :=
+(** everything the lattice theorem needs of one size, decidable; [sch] is the schedule *)
+Definition lattice_ok_sch (ct : celltype) (nx ny : nat) (sch : list (nat * list nat)) : bool :=
   let n := struct_n nx ny in
   let cells := struct_cells nx ny in
-  let sch := schedule ct cells n [] in
+  let bs := boundaries ct cells in
   wf_schedb n sch
   && forallb (fun jn => harmonic_fnb (colX nx) jn && harmonic_fnb (rowY nx) jn) sch
-  && forallb (fun k => Bool.eqb (is_boundary ct cells k) (border nx ny k)) (seq 0 n)
+  && forallb (fun k => Bool.eqb (is_boundary_in bs k) (border nx ny k)) (seq 0 n)
   && forallb (fun jn => length (snd jn) =? 4) sch
   && all_reach sch.
+Definition lattice_ok (ct : celltype) (nx ny : nat) : bool :=
+  lattice_ok_sch ct nx ny (schedule ct (struct_cells nx ny) (struct_n nx ny) []).
 
 (** the regular lattice: point k = origin + (k mod (nx+1)) * a + (k / (nx+1)) * b, one coordinate *)
 Definition lattice (nx ny : nat) (o a b : Q) : list Q :=
@@ -284,7 +286,7 @@ Theorem lattice_harmonic ct nx ny : lattice_ok ct nx ny = true ->
   forall fixed o a b jn, In jn (schedule ct (struct_cells nx ny) (struct_n nx ny) fixed) ->
     harmonic_at (lattice nx ny o a b) jn.
 Proof.
-  unfold lattice_ok. intros H fixed o a b jn Hin. apply schedule_sub in Hin.
+  unfold lattice_ok, lattice_ok_sch. intros H fixed o a b jn Hin. apply schedule_sub in Hin.
   apply andb_true_iff in H. destruct H as [H _]. apply andb_true_iff in H. destruct H as [H _].
   apply andb_true_iff in H. destruct H as [H _]. apply andb_true_iff in H. destruct H as [Hwf Hh].
   apply wf_schedb_sound in Hwf. destruct (Hwf jn Hin) as (A & B & C).
